@@ -232,6 +232,12 @@ def callFn {R : Type} (f : PV) (args : List PV) (k : PV → R) (ke : PExc → R)
     | .raised e => ke (.ex e)
   | _, _ => k .undef
 
+/-- `for x in items: step x` over a tuple of arbitrary values. -/
+def forEachPV {R : Type} (step : PV → List PV → (List PV → R) → R) :
+    List PV → List PV → (List PV → R) → R
+  | [], σ, kn => kn σ
+  | x :: xs, σ, kn => step x σ (fun σ' => forEachPV step xs σ' kn)
+
 /-- `zip(gs, vs)` evaluated pairwise, left to right; an exception stops the evaluation. -/
 def zipEval {R : Type} (f : (Val → Res) → Val → (PV → R) → (PExc → R) → R) :
     List (Val → Res) → List Val → (List PV → R) → (PExc → R) → R
@@ -248,6 +254,14 @@ def forEach {R : Type} (step : (Val → Res) → List PV → (List PV → R) →
   | [], σ, kn => kn σ
   | g :: gs, σ, kn => step g σ (fun σ' => forEach step gs σ' kn)
 
+/-- `self.attr(args)` for an attribute that holds a type object (`self.aType(value)`) or a
+validator function (`self.aFunc(object, name, value)`). -/
+def selfApply {R : Type} (C : Ctx) (f : PV) (args : List PV) (k : PV → R) (ke : PExc → R) : R :=
+  match f, args with
+  | .ty t, [.val v] => ofExcept (C.E.cast t v) k ke
+  | .fnv g, xs => callFn (.fnv g) xs k ke
+  | _, _ => k .undef
+
 /-! ## The interpreter -/
 
 mutual
@@ -262,7 +276,8 @@ def evalE {R : Type} (C : Ctx) : Expr → List PV → (PV → R) → (PExc → R
   | .attr e a, σ, k, ke => evalE C e σ (fun x => k (attrOf x a)) ke
   | .call f args, σ, k, ke => evalArgs C args σ (fun xs => builtin C f xs k ke) ke
   | .selfCall m args, σ, k, ke =>
-    evalArgs C args σ (fun _ => if m = "error" ∨ m = "validate_failed" then ke .te else k .undef) ke
+    evalArgs C args σ (fun xs =>
+      if m = "error" ∨ m = "validate_failed" then ke .te else selfApply C (C.cfg m) xs k ke) ke
   | .method name args, σ, k, ke => evalArgs C args σ (fun xs => callOut C name xs k ke) ke
   | .dynMethod cls m args, σ, k, ke =>
     evalE C m σ (fun x =>
@@ -286,7 +301,11 @@ def evalE {R : Type} (C : Ctx) : Expr → List PV → (PV → R) → (PExc → R
     evalE C e σ (fun x => match x with | .tup xs => k (xs.getD n .undef) | _ => k .undef) ke
   | .sliceFrom e n, σ, k, ke =>
     evalE C e σ (fun x => match x with | .tup xs => k (.tup (xs.drop n)) | _ => k .undef) ke
-  | .callVal f args, σ, k, ke => evalE C f σ (fun fv => evalArgs C args σ (fun xs => callFn fv xs k ke) ke) ke
+  | .callVal f args, σ, k, ke =>
+    evalE C f σ (fun fv => evalArgs C args σ (fun xs =>
+      match fv with
+      | .ty _ => selfApply C fv xs k ke
+      | _ => callFn fv xs k ke) ke) ke
   | .attrCall e m args, σ, k, ke =>
     evalE C e σ (fun fv => evalArgs C args σ (fun xs => if m = "validate" then callFn fv xs k ke else k .undef) ke) ke
   | .tupleZip i j xs ys elt, σ, k, ke =>
@@ -317,6 +336,7 @@ def exec {R : Type} (C : Ctx) : Stmt → List PV → (List PV → R) → (PV →
     evalE C iter σ (fun x =>
       match x with
       | .fns gs => forEach (fun g σ' kn' => exec C body (σ'.set i (.fnv g)) kn' kr ke) gs σ kn
+      | .tup xs => forEachPV (fun x σ' kn' => exec C body (σ'.set i x) kn' kr ke) xs σ kn
       | _ => kr .undef) ke
 def handle {R : Type} (C : Ctx) : Handlers → PExc → List PV → (List PV → R) → (PV → R) → (PExc → R) → R
   | .nil, e, _, _, _, ke => ke e
@@ -373,6 +393,15 @@ def selfCfg : TraitType → String → PV
     match a with
     | "_allow_none" => .bool an | "klass" => .ty cls
     | _ => .undef
+  | .coerceH ty, "fast_validate" =>
+    .tup (.int 11 :: .ty ty :: (coerceRest ty).map (fun t => match t with | none => .val Val.none | some t => .ty t))
+  | .castH ty, "aType" => .ty ty
+  | .instanceH cls an, a =>
+    match a with
+    | "_allow_none" => .bool an | "aClass" => .ty cls
+    | _ => .undef
+  | .enumH vals, "values" => .seq vals
+  | .mapH keys _, "map" => .dict keys
   | _, _ => .undef
 
 /-- The same with the attributes that hold validators (they need the environment): the item
@@ -387,6 +416,8 @@ def selfCfgE (E : Env) : TraitType → String → PV
     | "no_type_check" => .bool false
     | _ => .undef
   | .union alts, "list_ctrait_instances" => .fns (alts.map (fun t => ctraitValidate E t))
+  | .functionH f, "aFunc" =>
+    .fnv (fun v => match E.fn f v with | .ok w => .ok w | .error .traitError => .traitError | .error e => .raised e)
   | .compoundH hs, a =>
     match a with
     | "validates" => .fns ((hs.filter (fun t => (descOf E t).isSome)).map (fun t => pyValidate E t))
@@ -414,6 +445,12 @@ def pyMethodOf : TraitType → Option String
   | .tuple _ => some "Tuple.validate"
   | .union _ => some "Union.validate"
   | .compoundH _ => some "TraitCompound.validate"
+  | .coerceH _ => some "TraitCoerceType.validate"
+  | .castH _ => some "TraitCastType.validate"
+  | .instanceH .. => some "TraitInstance.validate"
+  | .functionH _ => some "TraitFunction.validate"
+  | .enumH _ => some "TraitEnum.validate"
+  | .mapH .. => some "TraitMap.validate"
   | _ => none
 
 end TraitsVerif.Model.PyVSrc
